@@ -8,6 +8,9 @@
 
 use arcstr::ArcStr;
 use grafeo_common::types::Value;
+#[cfg(kani)]
+use grafeo_common::utils::hash::FxHashMap as BTreeMap;
+#[cfg(not(kani))]
 use std::collections::BTreeMap;
 use std::io::{Read, Write};
 use std::sync::Arc;
